@@ -44,18 +44,41 @@ def split(g,d=0):
         sub=split(it[2],d+1)
         return [g] if len(sub)<=1 else ['(forall %s %s)'%(it[1],c) for c in sub]
     return [g]
+def skolem_parts(goal):
+    """forall-goal -> (declarations+guard assertions keeping the pattern terms alive, [conclusion conjuncts])"""
+    it=items(goal)
+    if it[0]!='forall': return None
+    binders=items(it[1]); body=it[2]
+    bi=items(body); pats=[]
+    if bi[0]=='!':
+        body=bi[1]
+        for k in range(2,len(bi),2):
+            if bi[k]==':pattern': pats+=items(bi[k+1])
+    bb=items(body)
+    if bb[0]!='=>' or len(bb)!=3: return None
+    pre=''
+    for b in binders:
+        n,srt=items(b)[0],b[b.index(' ')+1:-1]
+        pre+='(declare-const %s %s)\n'%(n,srt)
+    pre+='(assert %s)\n'%bb[1]
+    for k,pt in enumerate(pats):
+        pre+='(declare-fun keep!%d (Int) Bool)\n(assert (keep!%d %s))\n'%(k,k,pt)
+    return pre,split(bb[2])
 f=sys.argv[1]; to=sys.argv[2] if len(sys.argv)>2 else '10'
 s=open(f).read()
 i=s.rfind('(assert (not ')
 j=s.find('\n(check-sat)',i)
 goal=items(items(s[i:j])[1])[1]
-parts=split(goal)
-print(len(parts),'parts')
+sk=skolem_parts(goal)
+pre=''
+if sk: pre,parts=sk
+else: parts=split(goal)
+print(len(parts),'parts', '(skolemized)' if sk else '')
 for k,p in enumerate(parts):
-    q=s[:i]+'(assert (not '+p+'))\n(check-sat)\n'
+    q=s[:i]+pre+'(assert (not '+p+'))\n(check-sat)\n'
     open('/tmp/splitq_%d.smt2'%k,'w').write(q)
     res=[]
-    for solver in (['z3-new'],['cvc5','--strings-exp']):
+    for solver in (['z3-new','smt.mbqi=false','smt.auto_config=false'],['z3-new'],['cvc5','--strings-exp']):
         try:
             r=subprocess.run(['timeout',to]+solver+['/tmp/splitq_%d.smt2'%k],capture_output=True,text=True).stdout.split('\n')[0]
         except Exception as e: r=str(e)
